@@ -95,6 +95,9 @@ var c13ShapeInputs = []c13ShapeIn{
 	{3, "AVa", 16 << 6, di.DirectionLTR, nil},
 	{0, "$", 16 << 6, di.DirectionTTB, nil},
 	{2, "fi a", 16 << 6, di.DirectionLTR, []shaping.FontFeature{{Tag: ot.MustNewTag("liga"), Value: 0}, {Tag: ot.MustNewTag("kern"), Value: 0}}},
+	// same length as another feature list, other value (the shaper reuses one backing array for its features)
+	{2, "fi a", 32<<6 + 32, di.DirectionRTL, []shaping.FontFeature{{Tag: ot.MustNewTag("liga"), Value: 1}}},
+	{2, "fi a", 16 << 6, di.DirectionLTR, []shaping.FontFeature{{Tag: ot.MustNewTag("liga"), Value: 0}, {Tag: ot.MustNewTag("smcp"), Value: 1}}},
 }
 
 type c13Faces struct {
